@@ -263,8 +263,13 @@ theorem mapLoop_eq (bombs : List Id) (rest : List Id) :
         hs3 (by simp; omega) hl
       have e : done.length + 1 = (done ++ [id]).length := by simp
       rw [e, this]
-      simp
-      split <;> simp_all
+      congr 2
+      apply Vec.eq_of
+      · show (if _ then _ else _) ++ T = (if _ then _ else _) ++ T
+        congr
+      · rfl
+      · rfl
+      · simp
 
 theorem mapSpec_final_length (rest : List Id) : ∀ (done : List Id) (o : List Outcome),
     (mapSpec done rest o).final.length = done.length + rest.length ∨ (mapSpec done rest o).final = [] := by
